@@ -83,6 +83,7 @@ def run(chk, F):
     chk.guard("merge-closures", "btree_merge callers", lambda: merges(chk, F))
     chk.guard("factor-never-dropped", "NumberPartsFmt::to_spans", lambda: factor_shown(chk, F))
     chk.guard("irc-rendering", "rink_irc", lambda: irc_rendering(chk, F))
+    chk.guard("factor-exact", "eval_unit_name Of arm", lambda: of_target(chk, F))
 
 
 def prettify_data(chk, F):
@@ -572,3 +573,37 @@ def irc_rendering(chk, F):
                    "the reply text has its line ends removed (or is split) before it is sent",
                    "the reply is sent as rendered (%s): the IRC codec cuts a message at the first line end, `1 m -> s` loses "
                    "\"Suggestions: divide left side by velocity\" and `1 Hz -> s` loses the reciprocal hint" % src[:80])
+
+
+def of_target(chk, F):
+    """`x * t = v` for a target `prop of <substance>`: eval_unit_name answers with a *name* and a constant.  When it swaps the
+    property for the substance's own unit (`electron_mass`, the property of an amount of one) the constant has to carry the
+    amount, or `1 kg -> mass of (2 electron)` is off by the factor two; and a property name that is kept is shown as written,
+    not canonicalised like a unit name (`mass` is the plural of `mas`)."""
+    fn = F.find(CORE, "runtime::eval::eval_unit_name")
+    h = F.hir_of(fn)
+    arm = None
+    for m in hir_walk(h["body"]):
+        if m.get("k") == "Match" and m.get("src") == "Normal":
+            for a in m["arms"]:
+                if H.pat_str(a["pat"]).replace(" ", "").startswith("Expr::Of{"):
+                    arm = a
+    if arm is None:
+        raise AnchorLost("eval_unit_name: Expr::Of arm not found")
+    fields = [n for n in hir_walk(arm["body"]) if n.get("k") == "Field"]
+    uses_input_name = any(f["name"] == "input_name" for f in fields)
+    uses_amount = any(f["name"] == "amount" for f in fields)
+    fk = "rink_core::runtime::eval::eval_unit_name"
+    chk.decide((not uses_input_name) or uses_amount, "factor-exact", fk, "of-target:unit-of-one-carries-the-amount", "%s:%d" % (fn.file, arm["line"]),
+               "when the target is named by the substance's own unit, the constant is taken from the substance's amount",
+               "the target `prop of <substance>` is renamed to the substance's own unit (input_name) but the constant ignores the amount: "
+               "`1 kg -> mass of (2 electron)` prints `5.488845e29 electron_mass`, off by the factor two")
+    # the kept property name is not canonicalised
+    canon_args = []
+    for c in hir_walk(arm["body"]):
+        if c.get("k") == "MethodCall" and c["name"] == "canonicalize" and c["args"]:
+            canon_args.append(H.expr_str(c["args"][0], 80))
+    bad = [a for a in canon_args if "input_name" not in a]
+    chk.decide(not bad, "factor-exact", fk, "of-target:property-name-as-written", "%s:%d" % (fn.file, arm["line"]),
+               "only the substance's own unit name is canonicalised; a property name is shown as written",
+               "a property name is canonicalised like a unit name (%s): `100 kg -> mass of m^3 water` prints `0.1 mas (mass)`" % bad)
